@@ -88,7 +88,7 @@ def restore():
     for n, m in MODS.items():
         for k, v in _ORIG[n].items():
             m.__dict__[k] = v
-        for k in ('isinstance', 'set', 'max', 'min'):
+        for k in ('isinstance', 'set', 'max', 'min', 'hash'):
             m.__dict__.pop(k, None)
     _STATE['mode'] = 'real'
 
@@ -145,6 +145,12 @@ def install_set(cls):
     """bind the builtin name `set` of the mabwiser modules (PYTHONHASHSEED model)"""
     for n in ('mab', 'approximate', 'treebandit', 'base_mab', 'neighbors', 'clusters', 'linear', 'utils'):
         MODS[n].__dict__['set'] = cls
+
+
+def install_hash(fn):
+    """bind the builtin name `hash` of the mabwiser modules (PYTHONHASHSEED model)"""
+    for n in MODS:
+        MODS[n].__dict__['hash'] = fn
 
 
 def install_concrete(level, script=None, log=None):
